@@ -171,7 +171,7 @@ def run_and_validate(out, wd, docs, label, devs, props, max_fail_per_chunk=4):
         with open(hp, "w") as f:
             json.dump(ch, f)
         jobs.append(["store-run", hp, os.path.join(wd, f"{label}.{i}.scr"), os.path.join(wd, f"{label}.{i}.ndjson")])
-    run_vh_parallel(jobs, timeout=900)
+    crashed = [r for r in run_vh_parallel(jobs, timeout=900) if r.get("crashed")]
     import concurrent.futures
     import re
 
@@ -224,7 +224,8 @@ def run_and_validate(out, wd, docs, label, devs, props, max_fail_per_chunk=4):
                 break
         return fails, stats
 
-    failures = []
+    failures = [{"doc": c["inflight"], "matched": None, "violated": None, "guard": f"the store process died (rc={c['rc']})",
+                 "event": {"stderr": c["stderr"][-300:]}} for c in crashed]
     with concurrent.futures.ThreadPoolExecutor(max_workers=12) as ex:
         for fails, st in ex.map(work, range(len(chunks))):
             failures += fails
